@@ -268,6 +268,8 @@ def ret_expected(ret, k):
         return "%d" % (1 if k % 2 == 0 else 0)
     if ret == "s3":
         return "{%d;%d;%d}" % ((k & 0x3f) + 1, 0x5000 + k, 0x6000000000 + k)
+    if ret in ("vptr", "cvptr"):
+        return "p%d" % ((k % 100) + 1)
     return None
 
 
@@ -278,8 +280,25 @@ PRELUDE = r"""
 #include <string.h>
 
 static int g_in_slot = 0;
-struct MockArc { int count; int under; };
-static struct MockArc g_arc;
+/* context handles: g_arcs[0] is the object's own context (and carries the global count); every clone hands out a fresh
+   handle, so that releasing one handle twice is visible even when another handle is never released */
+struct MockArc { int count; int under; int rel; };
+#define MOCK_NH 32
+static struct MockArc g_arcs[MOCK_NH];
+#define g_arc (g_arcs[0])
+static int g_next_h = 1;
+static int mock_is_handle(const void *p) {
+    return (const struct MockArc *)p >= g_arcs && (const struct MockArc *)p < g_arcs + MOCK_NH;
+}
+static const void *mock_new_handle(void) {
+    int k = g_next_h < MOCK_NH ? g_next_h++ : MOCK_NH - 1;
+    return (const void *)&g_arcs[k];
+}
+static int mock_double(void) {
+    int i, n = 0;
+    for (i = 0; i < MOCK_NH; i++) if (g_arcs[i].rel > 1) n++;
+    return n;
+}
 static int g_drops[3];
 static int g_inst[3];
 static unsigned char g_buf[256];
@@ -287,16 +306,17 @@ static struct S3 g_s3arr[8];
 static const void *g_cur_cont = 0;
 
 static const void *mock_arc_clone(const void *p) {
-    struct MockArc *a = (struct MockArc *)p;
+    struct MockArc *a = &g_arc;
     a->count++;
-    printf("EV ctx_clone inslot=%d count=%d ok=%d\n", g_in_slot, a->count, p == (const void *)&g_arc);
-    return p;
+    printf("EV ctx_clone inslot=%d count=%d ok=%d\n", g_in_slot, a->count, mock_is_handle(p));
+    return mock_new_handle();
 }
 static void mock_arc_drop(const void *p) {
-    struct MockArc *a = (struct MockArc *)p;
+    struct MockArc *a = &g_arc;
     a->count--;
     if (a->count < 0) a->under = 1;
-    printf("EV ctx_drop inslot=%d count=%d ok=%d\n", g_in_slot, a->count, p == (const void *)&g_arc);
+    if (mock_is_handle(p)) ((struct MockArc *)p)->rel++;
+    printf("EV ctx_drop inslot=%d count=%d ok=%d\n", g_in_slot, a->count, mock_is_handle(p));
 }
 static void mock_box_drop(void *p) {
     int id = (int)((int *)p - g_inst);
@@ -307,7 +327,8 @@ static bool mock_cb_s3(void *c, struct S3 v) { (void)c; (void)v; return true; }
 static bool mock_cb_u64(void *c, uint64_t v) { (void)c; (void)v; return true; }
 static uint64_t mock_fnptr(uint64_t v) { return v + 1; }
 static void mock_reset(void) {
-    g_in_slot = 0; g_arc.count = 0; g_arc.under = 0; g_drops[0] = g_drops[1] = g_drops[2] = 0; g_cur_cont = 0;
+    g_in_slot = 0; g_drops[0] = g_drops[1] = g_drops[2] = 0; g_cur_cont = 0;
+    memset(g_arcs, 0, sizeof g_arcs); g_next_h = 1;
 }
 #if defined(__GNUC__)
 __attribute__((noinline))
@@ -364,7 +385,7 @@ def _slot_def(info, e, lib, lang):
     if m["recv"] == "own":
         cond = "%s == (const void *)&g_inst[1]" % _inst_ptr_expr(info, "cont", lang)
         if info["ctx"] == "arc":
-            cond += " && cont.context.instance == (const void *)&g_arc"
+            cond += " && mock_is_handle(cont.context.instance)"
         b.append('    printf(" cont=%%s", (%s) ? "ok" : "bad");' % cond)
     else:
         b.append('    printf(" cont=%s", ((const void *)cont == g_cur_cont) ? "ok" : "bad");')
@@ -387,7 +408,9 @@ def _slot_def(info, e, lib, lang):
         b.append("    memset(&r, 0, sizeof r);")
         b += ["    " + s for s in _fill_container(info, "r", 2, lang)]
         if info["ctx"] == "arc":
+            # the returned object owns a context reference of its own: a fresh handle
             b.append("    g_arc.count++;")
+            b.append("    r.context.instance = mock_new_handle();")
         b.append("    g_in_slot = 0;")
         b.append("    return r;")
     elif r == "s3":
@@ -397,6 +420,9 @@ def _slot_def(info, e, lib, lang):
         b.append("    return r;")
     elif r == "void":
         b.append("    g_in_slot = 0;")
+    elif r in ("vptr", "cvptr"):
+        b.append("    g_in_slot = 0;")
+        b.append("    return (void *)&g_buf[%d];" % ((k % 100) + 1))
     else:
         val = {"u64": "(uint64_t)%d" % (900000 + k), "bool": "true" if k % 2 == 0 else "false"}[r]
         b.append("    g_in_slot = 0;")
@@ -537,7 +563,7 @@ def _obj_setup(info, lang):
 
 
 def _end_line():
-    return '    printf("END count=%d d1=%d d2=%d under=%d\\n", g_arc.count, g_drops[1], g_drops[2], g_arc.under);'
+    return '    printf("END count=%d d1=%d d2=%d under=%d dbl=%d\\n", g_arc.count, g_drops[1], g_drops[2], g_arc.under, mock_double());'
 
 
 def _dtor_def(info, n, lang):
@@ -585,6 +611,10 @@ def _call_def(c, lib, lang):
     elif ret == "s3":
         b.append("    %s r = %s;" % ("struct S3" if lang == "c" else "S3", callexpr))
         b.append('    printf("RET {%u;%u;%llu}\\n", (unsigned)r.a, (unsigned)r.b, (unsigned long long)r.c);')
+    elif ret in ("vptr", "cvptr"):
+        b.append("    mock_poison();")
+        b.append("    const void *r = (const void *)%s;" % callexpr)
+        b.append('    printf("RET p%ld\\n", (long)((const unsigned char *)r - g_buf));')
     elif ret == "self":
         if lang == "c":
             b.append("    %s r = %s;" % (info["decl"], callexpr))
@@ -596,7 +626,7 @@ def _call_def(c, lib, lang):
             cond += " && r.container.instance.drop_fn == mock_box_drop"
         b.append('    printf("RET self inst=%%s", (%s) ? "ok" : "bad");' % cond)
         if info["ctx"] == "arc":
-            b.append('    printf(" ctx=%s", (r.container.context.instance == (const void *)&g_arc && r.container.context.clone_fn == mock_arc_clone '
+            b.append('    printf(" ctx=%s", (mock_is_handle(r.container.context.instance) && r.container.context.clone_fn == mock_arc_clone '
                      '&& r.container.context.drop_fn == mock_arc_drop) ? "ok" : "bad");')
         for f, _ in info["fields"]:
             b.append('    printf(" %s=%%s", ((const void *)r.%s == (const void *)obj.%s) ? "ok" : "bad");' % (f, f, f))
@@ -631,6 +661,9 @@ def _call_def(c, lib, lang):
             elif r2 in ("u64", "bool"):
                 b.append("        unsigned long long r2 = (unsigned long long)%s;" % call2)
                 b.append('        printf("RRET %llu\\n", r2);')
+            elif r2 in ("vptr", "cvptr"):
+                b.append("        const void *r2 = (const void *)%s;" % call2)
+                b.append('        printf("RRET p%ld\\n", (long)((const unsigned char *)r2 - g_buf));')
             else:
                 b.append("        %s r2 = %s;" % ("struct S3" if lang == "c" else "S3", call2))
                 b.append('        printf("RRET {%u;%u;%llu}\\n", (unsigned)r2.a, (unsigned)r2.b, (unsigned long long)r2.c);')
